@@ -656,8 +656,19 @@ C14_SearchChangesOnlyTimeouts ==
 \* --- C11: when the run ends (the harness has let the background coroutines run the
 \* configured number of cycles after the clients stopped at q0.t) nothing that was overdue
 \* at q0.t is left, and no task that was dispatchable then is still waiting untouched
+\* F2 (known finding): a registration whose derived id is the id of an existing task (ids containing
+\* ":" derive the same id from different pairs): every completion or time-out of its promise is refused
+\* by the store (UNIQUE constraint in the bulk task insert), so the promise stays pending for ever
+IsF2(S, p) == \E cb \in CallbacksOn(S, p) : Has(S.tasks, cb)
+ConvergedButKnown(Q, t) ==
+  LET stuck == {p \in DuePromises(Q, t) : IsF2(Q, p)} IN
+  /\ DuePromises(Q, t) \ stuck = {}
+  /\ (stuck # {} => "F2" \in Known /\ NoteFinding("F2"))
+  /\ \A r \in DOMAIN Q.locks : Q.locks[r].expiresAt > t
+  /\ DueSchedules(Q, t) = {}
+  /\ ExpirableTasks(Q, TaskBusy, t) = {}
 C11_ConvergedAtEnd ==
   (Last.e = "end" /\ q0.t >= 0) =>
-     /\ Converged(db, q0.t)
+     /\ ConvergedButKnown(db, q0.t)
      /\ \A x \in EnqueueableTasks(db) \cap EnqueueableTasks(q0.db) : db.tasks[x] # q0.db.tasks[x]
 =============================================================================
